@@ -177,3 +177,6 @@ func LoadRegressions(prop string) []*Plan {
 	}
 	return out
 }
+
+func tier() string      { return report.Tier() }
+func shard() (int, int) { return report.Shard() }
